@@ -80,6 +80,10 @@ class SimDisk:
         sw = config.get("short_writes")
         self.short_write_rng = random.Random(int(sw)) if sw is not None else None
         self.buggify = {"short_read": 0, "short_write_retry": 0}
+        self.raw_readers = bool(config.get("raw_readers"))
+        # tree change injected right after the n-th directory listing (C19 consistency mode)
+        self.change_after_listing = config.get("change_after_listing")
+        self.listing_calls = 0
         self.open_handles = {}      # path -> count of open write handles
         self.on_open_w = None       # invariant hook: f(disk, path)
         self.step_cap = int(config.get("step_cap", 200000))
@@ -155,6 +159,16 @@ class SimDisk:
             out = list(ents)
             r.shuffle(out)
         self.listings.append((self.seq, p, list(out)))
+        self.listing_calls += 1
+        ch = self.change_after_listing
+        if ch and self.listing_calls == int(ch["n"]):
+            for path, hx in ch.get("add", {}).items():
+                q = norm(path)
+                if posixpath.dirname(q) in self.dirs:
+                    self.files[q] = bytearray(bytes.fromhex(hx))
+            for path in ch.get("remove", []):
+                self.files.pop(norm(path), None)
+            self.fired.append(("tree-changed", LISTDIR, self.seq))
         return list(out)
 
     # ------------------------------------------------------------------ open
